@@ -25,6 +25,7 @@ import importlib
 import json
 import multiprocessing as mp
 import os
+import signal
 import sys
 import time
 import traceback
@@ -161,6 +162,14 @@ def merge(dumps):
     return tot
 
 
+class _CaseTimeout(BaseException):
+    pass
+
+
+def _case_alarm(signum, frame):
+    raise _CaseTimeout()
+
+
 def _shard_worker(args):
     mod_name, tier, seed, shard, n_cases, phase = args
     setup_path()
@@ -185,13 +194,24 @@ def _shard_worker(args):
             )
             @given(strat)
             def test(case):
+                # watchdog: a case that is still running after VERIF_CASE_TIMEOUT seconds (default 300) is abandoned and
+                # counted as inconclusive (never as a violation); properties about termination (C09, C11, C17) carry
+                # their own, much shorter, alarms inside execute() and report those as violations themselves
+                old = signal.signal(signal.SIGALRM, _case_alarm)
+                signal.alarm(int(os.environ.get("VERIF_CASE_TIMEOUT", "300")))
                 try:
                     outcome = mod.execute(case)
+                except _CaseTimeout:
+                    col.record(case, dict(failures=[], nontrivial=False, classes=["case_timeout_inconclusive"]))
+                    return
                 except Exception:  # harness error: do not turn into violation
                     col.errors.append(
                         "harness exception in execute: " + traceback.format_exc()[-1500:]
                     )
                     return
+                finally:
+                    signal.alarm(0)
+                    signal.signal(signal.SIGALRM, old)
                 col.record(case, outcome)
 
             test()
